@@ -152,11 +152,21 @@ func New(prog *load.Program) *Machine {
 func (m *Machine) Call(pos token.Pos, fn Value, args []Value) (Value, error) {
 	switch fn := fn.(type) {
 	case *FuncV:
+		if fn.MethodExpr {
+			if len(args) == 0 {
+				return nil, undecided(pos, "method expression %s called without a receiver", fn.Fn.FullName())
+			}
+			return m.CallFunc(pos, fn.Fn, args[0], args[1:])
+		}
 		return m.CallFunc(pos, fn.Fn, fn.Recv, args)
 	case *Closure:
 		return m.callBody(pos, fn.Info, fn.Env, nil, nil, fn.Lit.Type, fn.Lit.Body, args)
 	case *Unknown:
 		return nil, undecided(pos, "call of unknown function value (%s)", fn.Why)
+	}
+	if _, isNil := fn.(NilV); isNil {
+		m.Notes = append(m.Notes, Note{Rule: "H-PANIC", Key: "nil-func-call@" + m.Prog.Pos(pos), Pos: pos, Msg: "a nil function value is called"})
+		return nil, undecided(pos, "call of a nil function value (the program panics here)")
 	}
 	return nil, undecided(pos, "call of non-function value %s", Show(fn))
 }
@@ -359,6 +369,15 @@ func (m *Machine) truth(pos token.Pos, v Value, key string) (bool, error) {
 	case bool:
 		return v, nil
 	case *Unknown:
+		// an abstract error is one value: every test of it on a path has the same outcome,
+		// wherever it is written and whether it is written err == nil or err != nil
+		if i := strings.Index(key, ":"); i >= 0 && strings.Contains(key[i+1:], "error#") {
+			term, neg := key[i+1:], false
+			for strings.HasPrefix(term, "!(") && strings.HasSuffix(term, ")") {
+				term, neg = term[2:len(term)-1], !neg
+			}
+			return m.Choices.next("0:"+term) != neg, nil
+		}
 		return m.Choices.next(key), nil
 	}
 	return false, undecided(pos, "condition is not a boolean: %s", Show(v))
@@ -494,6 +513,14 @@ func (m *Machine) exec(fr *frame, s ast.Stmt) (ctrl, Value, error) {
 			for i := int64(0); i < x; i++ {
 				keys = append(keys, i)
 				vals = append(vals, nil)
+			}
+		case *Seq:
+			if x.Two {
+				keys = append(keys, x.Keys...)
+				vals = append(vals, x.Elems...)
+			} else {
+				keys = append(keys, x.Elems...)
+				vals = make([]Value, len(x.Elems))
 			}
 		case *MapV:
 			// insertion order; whether the loop is order-insensitive is G-DET's business
@@ -769,10 +796,17 @@ func (m *Machine) evalMulti(fr *frame, e ast.Expr, n int) ([]Value, error) {
 		}
 		if mv, ok := x.(*MapV); ok {
 			for i, kk := range mv.Keys {
-				if b, ok := m.equal(e.Pos(), kk, k).(bool); ok && b {
+				eq := m.equal(e.Pos(), kk, k)
+				if b, ok := eq.(bool); ok && b {
 					return []Value{mv.Vals[i], true}, nil
 				} else if !ok {
-					return nil, undecided(e.Pos(), "map lookup with symbolic key")
+					hit, err := m.truth(e.Pos(), eq, fmt.Sprintf("%d:%s", e.Pos(), TermOf(eq)))
+					if err != nil {
+						return nil, err
+					}
+					if hit {
+						return []Value{mv.Vals[i], true}, nil
+					}
 				}
 			}
 			return []Value{m.zero(fr.info.TypeOf(e)), false}, nil
@@ -944,6 +978,11 @@ func (m *Machine) eval(fr *frame, e ast.Expr) (Value, error) {
 		return &Closure{Lit: e, Env: fr, Info: info}, nil
 	case *ast.SelectorExpr:
 		if sel, ok := info.Selections[e]; ok {
+			if sel.Kind() == types.MethodExpr {
+				if fn, ok := sel.Obj().(*types.Func); ok {
+					return &FuncV{Fn: fn, MethodExpr: true}, nil
+				}
+			}
 			x, err := m.eval(fr, e.X)
 			if err != nil {
 				return nil, err
@@ -989,6 +1028,20 @@ func (m *Machine) eval(fr *frame, e ast.Expr) (Value, error) {
 					case *Opaque:
 						return s, nil // the address of an opaque object is the object
 					}
+				}
+			}
+			switch ast.Unparen(e.X).(type) {
+			case *ast.IndexExpr, *ast.SelectorExpr:
+				// the address of a struct held in a slice element or a field aliases that struct
+				v, err := m.eval(fr, e.X)
+				if err != nil {
+					return nil, err
+				}
+				switch s := v.(type) {
+				case *Struct:
+					return &Ptr{Elem: s}, nil
+				case *Opaque:
+					return s, nil
 				}
 			}
 			return nil, undecided(e.Pos(), "address-of outside the analysed vocabulary")
@@ -1058,10 +1111,18 @@ func (m *Machine) eval(fr *frame, e ast.Expr) (Value, error) {
 			return x.Elems[n], nil
 		case *MapV:
 			for j, k := range x.Keys {
-				if b, ok := m.equal(e.Pos(), k, i).(bool); ok && b {
+				eq := m.equal(e.Pos(), k, i)
+				if b, ok := eq.(bool); ok && b {
 					return x.Vals[j], nil
 				} else if !ok {
-					return &Unknown{Why: "map lookup with symbolic key"}, nil
+					// an input-dependent key: each entry may or may not be the one looked up
+					hit, err := m.truth(e.Pos(), eq, fmt.Sprintf("%d:%s", e.Pos(), TermOf(eq)))
+					if err != nil {
+						return nil, err
+					}
+					if hit {
+						return x.Vals[j], nil
+					}
 				}
 			}
 			return m.zero(info.TypeOf(e)), nil
@@ -1087,6 +1148,35 @@ func (m *Machine) eval(fr *frame, e ast.Expr) (Value, error) {
 		}
 		switch x := x.(type) {
 		case *Sym:
+			// bounds that are positions found in this very string (strings.Index and the like)
+			if _, conc := x.Concrete(); !conc && e.Slice3 == false {
+				var lov, hiv Value = int64(0), nil
+				var err error
+				if e.Low != nil {
+					if lov, err = m.eval(fr, e.Low); err != nil {
+						return nil, err
+					}
+				}
+				if e.High != nil {
+					if hiv, err = m.eval(fr, e.High); err != nil {
+						return nil, err
+					}
+				}
+				_, loCut := lov.(*Unknown)
+				_, hiCut := hiv.(*Unknown)
+				if loCut || hiCut {
+					p1, o1, ok1 := x.CutPos(lov)
+					p2, o2, ok2 := 0, 0, true
+					if hiv != nil {
+						p2, o2, ok2 = x.CutPos(hiv)
+					}
+					if ok1 && ok2 {
+						if out, ok := x.Between(p1, o1, p2, o2, hiv == nil); ok {
+							return out, nil
+						}
+					}
+				}
+			}
 			lo, ok, err := bound(e.Low, 0)
 			if err != nil {
 				return nil, err
@@ -1279,10 +1369,14 @@ func (m *Machine) equal(pos token.Pos, a, b Value) Value {
 			return false
 		}
 	case *Unknown:
+		if n, ok := b.(int64); ok && a.HasLower && n < a.Lower {
+			return false
+		}
 		return &Unknown{Why: "(" + a.Why + " == " + TermOf(b) + ")"}
 	}
 	if u, ok := b.(*Unknown); ok {
-		return &Unknown{Why: "(" + TermOf(a) + " == " + u.Why + ")"}
+		// the unknown side is written first whatever the operand order
+		return m.equal(pos, u, a)
 	}
 	return &Unknown{Why: fmt.Sprintf("comparison of %s and %s", Show(a), Show(b))}
 }
@@ -1300,6 +1394,28 @@ func (m *Machine) binop(pos token.Pos, op token.Token, l, r Value) (Value, error
 			return &Unknown{Why: "!(" + u.Why + ")"}, nil
 		}
 		return v, nil
+	}
+	if v, ok := boundedCompare(op, l, r); ok {
+		return v, nil
+	}
+	// a position in a symbolic string moved by a constant stays a position while it stays inside the literal piece
+	if op == token.ADD || op == token.SUB {
+		u, uok := l.(*Unknown)
+		n, nok := r.(int64)
+		if (!uok || !nok) && op == token.ADD {
+			u, uok = r.(*Unknown)
+			n, nok = l.(int64)
+		}
+		if uok && nok && u.Cut != nil && u.Cut.Part < len(u.Cut.S.Parts) {
+			if op == token.SUB {
+				n = -n
+			}
+			off := u.Cut.Off + int(n)
+			if off >= 0 && off <= len(u.Cut.S.Parts[u.Cut.Part].Lit) {
+				return &Unknown{Why: "(" + u.Why + " " + op.String() + " " + TermOf(r) + ")", Lower: u.Lower + n, HasLower: u.HasLower,
+					Cut: &Cut{S: u.Cut.S, Part: u.Cut.Part, Off: off}}, nil
+			}
+		}
 	}
 	_, lun := l.(*Unknown)
 	_, run := r.(*Unknown)
@@ -1365,6 +1481,49 @@ func (m *Machine) binop(pos token.Pos, op token.Token, l, r Value) (Value, error
 		}
 	}
 	return nil, undecided(pos, "operator %s on %s and %s", op, Show(l), Show(r))
+}
+
+// boundedCompare decides an ordering between an unknown integer with a known
+// lower bound and a constant below that bound.
+func boundedCompare(op token.Token, l, r Value) (Value, bool) {
+	flip := map[token.Token]token.Token{token.LSS: token.GTR, token.GTR: token.LSS, token.LEQ: token.GEQ, token.GEQ: token.LEQ}
+	u, ok := l.(*Unknown)
+	n, nok := r.(int64)
+	if !ok || !nok {
+		u, ok = r.(*Unknown)
+		n, nok = l.(int64)
+		if !ok || !nok {
+			return nil, false
+		}
+		f, has := flip[op]
+		if !has {
+			return nil, false
+		}
+		op = f
+	}
+	if !u.HasLower {
+		return nil, false
+	}
+	// u >= Lower
+	switch op {
+	case token.GTR: // u > n
+		if n < u.Lower {
+			return true, true
+		}
+	case token.GEQ:
+		if n <= u.Lower {
+			return true, true
+		}
+	case token.LSS: // u < n
+		if n <= u.Lower {
+			return false, true
+		}
+	case token.LEQ:
+		if n < u.Lower {
+			return false, true
+		}
+	}
+	return nil, false
 }
 
 func (m *Machine) composite(fr *frame, e *ast.CompositeLit) (Value, error) {
@@ -1461,6 +1620,22 @@ func (m *Machine) call(fr *frame, e *ast.CallExpr) (Value, error) {
 				return v, nil
 			}
 		}
+		// a conversion between types with identical underlying types (named slice, map,
+		// struct or func types) does not change the abstract value
+		if src := info.TypeOf(e.Args[0]); src != nil {
+			if types.Identical(src.Underlying(), tv.Type.Underlying()) {
+				switch tv.Type.Underlying().(type) {
+				case *types.Slice, *types.Map, *types.Signature, *types.Array:
+					return v, nil
+				case *types.Struct:
+					if st, ok := v.(*Struct); ok {
+						c := st.Copy()
+						c.Type = tv.Type
+						return c, nil
+					}
+				}
+			}
+		}
 		return nil, undecided(e.Pos(), "conversion to %s", tv.Type)
 	}
 	// builtin
@@ -1526,7 +1701,16 @@ func (m *Machine) builtin(fr *frame, e *ast.CallExpr, name string) (Value, error
 			if c, ok := x.Concrete(); ok {
 				return int64(len(c)), nil
 			}
-			return &Unknown{Why: "len(" + x.Flat() + ")"}, nil
+			// every token stands for at least one byte
+			lower := int64(0)
+			for _, p := range x.Parts {
+				if p.Tok != "" {
+					lower++
+				} else {
+					lower += int64(len(p.Lit))
+				}
+			}
+			return &Unknown{Why: "len(" + x.Flat() + ")", Lower: lower, HasLower: true}, nil
 		case *Unknown:
 			return x, nil
 		}
